@@ -530,3 +530,19 @@ Print Assumptions c06_code_compare_lowercase.
 Print Assumptions c06_code_header_defined.
 Print Assumptions c06_code_for_response_whole.
 Print Assumptions c06_code_nonvacuous.
+
+(* ================================================================== Call<RecvResponse>::try_response itself (translated from the source) *)
+(** The function that turns server bytes into a response and a framing decision -- complete head, or the partial-redirect
+    work-around with its synthetic Connection: close; the 100 special case; the Content-Length text test; [for_response] recorded in
+    the reader -- is translated on every run by tools/rs2coq2.py (theories/Gen2.v, [gen_call_try_response]; the two parsers' results
+    are values of the model's types, what is asked of a response are the model's readings of the http accessors) and proved EQUAL to
+    the model's [call_try_response] (proofs/Gen2_equiv_call.v).  Trusted: the translator; the parsers themselves (httparse) stay modelled. *)
+From Hoot Require Import GenLib Gen2.
+From Hoot.proofs Require Import Gen2_equiv_call.
+Theorem c06_code_call_try_response : forall c input,
+  gen_call_try_response (c_reader c) (am_method (c_req c)) input
+    (try_parse_response (N.to_nat MAX_RESPONSE_HEADERS) input)
+    (try_parse_partial_response (N.to_nat MAX_RESPONSE_HEADERS) input)
+  = lift_try (call_try_response c input).
+Proof. exact gen_call_try_response_eq. Qed.
+Print Assumptions c06_code_call_try_response.
